@@ -134,7 +134,10 @@ Mixed == {
                 Place("g", "inserter", 21, 0)>>),
   P9("mixed", <<InA, SFor("i", IRange(Num(0), Num(4), Num(0)), <<SPlace("e", "small-lamp", Bin("*", Ref("i"), Num(2)), Num(0), <<>>), SProp("e", "enable", Bin(">", A, Ref("i")))>>)>>)
  }
-C09All == Single \cup Props9 \cup Loops \cup Funcs \cup Mixed \cup Shadow9 \cup UserMade
+\* more than 500 entities: the layout engine switches to its component decomposition; every one of the 600 lamps must stay where it was put
+Big9 == {P9("big", <<InA, SFor("i", IRange(Num(0), Num(30), Num(0)), <<SFor("j", IRange(Num(0), Num(20), Num(0)), <<SPlace("e", "small-lamp", Bin("*", Ref("i"), Num(2)), Bin("*", Ref("j"), Num(2)), <<>>)>>)>>),
+                    Place("f", "small-lamp", 70, 0), Enable("f", Bin(">", A, Num(3)))>>)}
+C09All == Single \cup Props9 \cup Loops \cup Funcs \cup Mixed \cup Shadow9 \cup UserMade \cup Big9
 ASSUME PrintT(<<"NPROGS", Cardinality(C06All), Cardinality(C09All)>>)
 ASSUME JsonSerialize(IOEnv.GEN_OUT, SetToSeq({[p EXCEPT !.grp = "c06:" \o p.grp] : p \in C06All}) \o SetToSeq({[p EXCEPT !.grp = "c09:" \o p.grp] : p \in C09All}))
 =============================================================================
